@@ -81,7 +81,7 @@ impl<R: AsyncRead + Unpin + Send + Sync> AsyncReadPacket for R {
             let mut buffer = vec![0; len as usize];
             self.read_exact(&mut buffer).await?;
 
-            return String::from_utf8(buffer).map_err(|_| Error::InvalidEncoding);
+            return from_modified_utf8(&buffer).ok_or(Error::InvalidEncoding);
         }
 
         // expect it to take the full buffer (the text component is the last element in the packet)
@@ -116,4 +116,40 @@ async fn read_prefixed<R: AsyncRead + Unpin>(
     }
 
     Ok(buffer)
+}
+
+/// Decodes Java's "modified UTF-8", the encoding of NBT strings (see the writer).
+fn from_modified_utf8(bytes: &[u8]) -> Option<String> {
+    let continuation = |index: usize| {
+        bytes
+            .get(index)
+            .filter(|byte| *byte & 0xC0 == 0x80)
+            .map(|byte| u16::from(byte & 0x3F))
+    };
+
+    let mut units = Vec::with_capacity(bytes.len());
+    let mut index = 0;
+    while index < bytes.len() {
+        let byte = bytes[index];
+        match byte {
+            0x00..=0x7F => {
+                units.push(u16::from(byte));
+                index += 1;
+            }
+            0xC0..=0xDF => {
+                units.push(u16::from(byte & 0x1F) << 6 | continuation(index + 1)?);
+                index += 2;
+            }
+            0xE0..=0xEF => {
+                units.push(
+                    u16::from(byte & 0x0F) << 12
+                        | continuation(index + 1)? << 6
+                        | continuation(index + 2)?,
+                );
+                index += 3;
+            }
+            _ => return None,
+        }
+    }
+    String::from_utf16(&units).ok()
 }
